@@ -140,5 +140,6 @@ PROPS = {
     "C02": ip_prop("C02", [ip_checks.core_scope, ip_checks.file_scope, ip_checks.cli_scope, ip_checks.big_history, ip_checks.process_history_scope]),
     "C03": ip_prop("C03", [ip_checks.core_scope, ip_checks.file_scope, ip_checks.big_history, ip_checks.process_history_scope]),
     "C04": ip_prop("C04", [ip_checks.core_scope, ip_checks.file_scope, ip_checks.cli_scope, ip_checks.big_history]),
+    "C05": ip_prop("C05", [ip_checks.mask_scope, ip_checks.core_scope, ip_checks.file_scope, ip_checks.cli_scope]),
     "C17": ip_prop("C17", [ip_checks.core_scope, ip_checks.cli_scope, ip_checks.big_history]),
 }
